@@ -146,17 +146,53 @@ fn base_of<K: Kmer>(stranded: bool, nodes: &str) -> BaseGraph<K, u32> {
 fn finish_k<K: Kmer + Send + Sync>(a: &[&str]) -> String {
     let stranded = a[2] == "1";
     let threads: usize = a[3].parse().unwrap();
-    let serial = queries(&base_of::<K>(stranded, a[4]).finish_serial(), a[5]);
+    let gs = base_of::<K>(stranded, a[4]).finish_serial();
+    let serial = queries(&gs, a[5]);
+    // the slot layout of the four index maps as they really are (hook `verif_index_layout`): of the serially built graph
+    // and of the parallel run that differs most from it (the last one whose slot order is not the serial one, else the last)
+    let lay_s = layout(&gs);
     let pool = rayon::ThreadPoolBuilder::new().num_threads(threads).build().unwrap();
     let runs = 5;
     let mut same = true;
     let mut par = String::new();
+    let mut lay_p = String::new();
     for _ in 0..runs {
-        let q = pool.install(|| queries(&base_of::<K>(stranded, a[4]).finish(), a[5]));
+        let (q, l) = pool.install(|| { let g = base_of::<K>(stranded, a[4]).finish(); (queries(&g, a[5]), layout(&g)) });
         if q != serial { same = false; }
         par = q;
+        if lay_p.is_empty() || l != lay_s { lay_p = l; }
     }
-    format!("serial={}|parallel={}|runs={}|same={}", serial, par, runs, same as u8)
+    format!("serial={}|parallel={}|runs={}|same={}|layout={}/{}", serial, par, runs, same as u8, lay_s, lay_p)
+}
+
+/// `L-map/R-map`, each `key=value=slot-reported-by-get_key_id,...` in slot order (`-` if empty, `x` for a key not found)
+fn layout<K: Kmer>(g: &DebruijnGraph<K, u32>) -> String {
+    [debruijn::Dir::Left, debruijn::Dir::Right].iter().map(|d| {
+        let v = g.verif_index_layout(*d);
+        if v.is_empty() { "-".to_string() } else {
+            v.iter().map(|(k, val, id)| format!("{}={}={}", show_digits(&k.iter().collect::<Vec<u8>>()), val, match id { Some(i) => i.to_string(), None => "x".into() })).collect::<Vec<_>>().join(",")
+        }
+    }).collect::<Vec<_>>().join("/")
+}
+
+/// the two predicates of the C19b theorem evaluated in Rust on one map of a large graph: every slot's key is the terminal
+/// k-mer of the node its value names and is reported at that slot, and every node is named exactly once
+fn layout_ok_big<K: Kmer>(g: &DebruijnGraph<K, u32>) -> bool {
+    let k = K::k();
+    for d in [debruijn::Dir::Left, debruijn::Dir::Right] {
+        let v = g.verif_index_layout(d);
+        if v.len() != g.len() { return false; }
+        let mut seen = vec![false; g.len()];
+        for (slot, (key, val, id)) in v.iter().enumerate() {
+            let i = *val as usize;
+            if i >= g.len() || seen[i] || *id != Some(slot) { return false; }
+            seen[i] = true;
+            let s = g.get_node(i).sequence();
+            let want: K = match d { debruijn::Dir::Left => s.get_kmer(0), debruijn::Dir::Right => s.get_kmer(s.len() - k) };
+            if want != *key { return false; }
+        }
+    }
+    true
 }
 
 /// big graphs: implementation against implementation, every node / side and absent k-mers
@@ -208,10 +244,12 @@ fn big_k<K: Kmer + Send + Sync>(seed: u64, n_nodes: usize, threads: usize, reps:
         h
     };
     let want = fp(&serial);
+    if !layout_ok_big(&serial) { return "same=0 layout-not-exact serial".to_string(); }
     let pool = rayon::ThreadPoolBuilder::new().num_threads(threads).build().unwrap();
     for r in 0..reps {
-        let got = pool.install(|| fp(&bg.clone().finish()));
+        let (got, lay) = pool.install(|| { let g = bg.clone().finish(); (fp(&g), layout_ok_big(&g)) });
         if got != want { return format!("same=0 rep={} threads={}", r, threads); }
+        if !lay { return format!("same=0 layout-not-exact rep={} threads={}", r, threads); }
     }
     format!("same=1 nodes={} queries={} threads={} reps={}", n_nodes, 4 * n_nodes + probes.len(), threads, reps)
 }
